@@ -954,13 +954,18 @@ class IMAPUserServer:
         Return the next uid_vv. Also update the underlying database
         so that its uid_vv state remains up to date.
         """
+        # NOTE: Take the value before we await: several mailboxes being
+        #       created at the same time (start-up finds all the folders at
+        #       once) must not all be handed the last one's value.
+        #
         self.uid_vv += 1
+        uid_vv = self.uid_vv
         await self.db.execute(
             "UPDATE user_server SET uid_vv = ?",
-            (str(self.uid_vv),),
+            (str(uid_vv),),
             commit=True,
         )
-        return self.uid_vv
+        return uid_vv
 
     ##################################################################
     #
